@@ -180,7 +180,7 @@ fn main() {
 	let code = next_exit(&name, &exit_seq);
 	emit(&json!({
 		"src": "hook", "ev": "HookRun", "phase": "end", "hook": name, "pid": pid,
-		"kv": kv, "env": env, "stdin": stdin_data, "files": files, "files_first": files_first, "exit": code,
+		"kv": kv, "env": env, "stdin": stdin_data, "files": files, "files_first": files_first, "exit": code, "signal": signal_self,
 		"argv": argv[1..].to_vec(),
 	}));
 	if signal_self {
